@@ -419,6 +419,7 @@ func runFileSink(rc *RunCtx, prop string, crash bool, faults bool) {
 			}
 		}
 		checkRetention(rc, sim, sink, logDir, base, ext, events, pos, renamedPaths)
+		checkNameOrder(rc, sim, sink, logDir, base, ext, events, pos)
 	}
 	checkGroundTruth(rc, prop, fs, logDir, faults)
 }
@@ -531,6 +532,59 @@ func checkRetention(rc *RunCtx, sim *simrt.Sim, sink *el.FileSink, logDir, base,
 	for _, p := range renamedPaths {
 		if _, err := os.Stat(p); err != nil {
 			rc.Failf("C08.lost-file", "renamed-away", "file %s (renamed away by the operator) disappeared", filepath.Base(p))
+		}
+	}
+}
+
+// checkNameOrder: a reader orders the sink's files by their names (rotated
+// files by timestamp, the plain-named active file last). Acknowledged events
+// must appear in acknowledgement order under THAT order too. Files renamed
+// away by the operator have no place in it and are left out.
+func checkNameOrder(rc *RunCtx, sim *simrt.Sim, sink *el.FileSink, logDir, base, ext string, events []*fsEvent, pos map[int][2]int) {
+	fs := sim.FS
+	type nf struct {
+		file int
+		ts   int64
+	}
+	var files []nf
+	ents, _ := os.ReadDir(logDir)
+	for _, en := range ents {
+		name := en.Name()
+		id := fs.FileOfIno(inoOfPath(filepath.Join(logDir, name)))
+		if id == 0 {
+			continue
+		}
+		switch {
+		case name == sink.FileName:
+			files = append(files, nf{id, 1<<62 - 1}) // the active file is the newest
+		case strings.HasPrefix(name, base+"-") && strings.HasSuffix(name, ext):
+			ts, err := strconv.ParseInt(strings.TrimSuffix(strings.TrimPrefix(name, base+"-"), ext), 10, 64)
+			if err == nil {
+				files = append(files, nf{id, ts})
+			}
+		}
+	}
+	sort.Slice(files, func(i, j int) bool { return files[i].ts < files[j].ts })
+	rank := map[int]int{}
+	for i, f := range files {
+		rank[f.file] = i
+	}
+	for _, a := range events {
+		for _, b := range events {
+			pa, oka := pos[a.ID]
+			pb, okb := pos[b.ID]
+			if !oka || !okb || !(a.Returned && a.Err == nil && b.Returned && b.Err == nil) || a.Ret >= b.Call {
+				continue
+			}
+			ra, okra := rank[fs.Writes[pa[1]].File]
+			rb, okrb := rank[fs.Writes[pb[1]].File]
+			if !okra || !okrb {
+				continue // pruned or renamed away
+			}
+			if ra > rb || (ra == rb && pa[1] > pb[1]) {
+				rc.Failf("C08.reordered", "by-file-name", "event #%d was acknowledged before #%d was submitted, but reading the sink's files in name (timestamp) order yields #%d first", a.ID, b.ID, b.ID)
+				return
+			}
 		}
 	}
 }
